@@ -11,9 +11,17 @@ import (
 	"strings"
 	"time"
 
+
+	"github.com/btcsuite/btcd/chaincfg"
+	"github.com/btcsuite/btcd/chaincfg/chainhash"
+	"github.com/btcsuite/btcd/wire"
+	"github.com/btcsuite/btcwallet/snacl"
+	"github.com/btcsuite/btcwallet/waddrmgr"
+	"github.com/btcsuite/btcwallet/wallet"
 	"github.com/btcsuite/btcwallet/walletdb"
 	_ "github.com/btcsuite/btcwallet/walletdb/bdb"
 	"github.com/btcsuite/btcwallet/walletdb/migration"
+	"github.com/btcsuite/btcwallet/wtxmgr"
 
 	"verifharness/core"
 )
@@ -82,6 +90,15 @@ func (migEngine) Generate(rng *rand.Rand, tier string) []core.Case {
 					}
 				}
 				add(fmt.Sprintf("up cur=%d sf=1 tx=1 vs=%s failnums=", cur, strings.Join(vs, ",")))
+			}
+		}
+	}
+	// real wallet.Open on databases whose component versions are behind / at / ahead of the software
+	{
+		tl, al := realLatest()
+		for _, tc := range []int{tl - 1, tl, tl + 1} {
+			for _, ac := range []int{al, al + 1} {
+				add(fmt.Sprintf("wopen txcur=%d txlatest=%d addrcur=%d addrlatest=%d", tc, tl, ac, al))
 			}
 		}
 	}
@@ -188,8 +205,125 @@ func (m *migMgr) SetVersion(b walletdb.ReadWriteBucket, v uint32) error {
 	return b.Put([]byte("version"), []byte(strconv.Itoa(int(v))))
 }
 
+func realLatest() (int, int) {
+	tl := migration.GetLatestVersion(append([]migration.Version{}, wtxmgr.NewMigrationManager(nil).Versions()...))
+	al := migration.GetLatestVersion(append([]migration.Version{}, waddrmgr.NewMigrationManager(nil).Versions()...))
+	return int(tl), int(al)
+}
+
+var wtxmgrNS = []byte("wtxmgr")
+var waddrmgrNS = []byte("waddrmgr")
+
+func dumpBucket(b walletdb.ReadBucket, prefix string, out *[]string) {
+	_ = b.ForEach(func(k, v []byte) error {
+		if v == nil {
+			if nb := b.NestedReadBucket(k); nb != nil {
+				*out = append(*out, fmt.Sprintf("%s/%x/", prefix, k))
+				dumpBucket(nb, fmt.Sprintf("%s/%x", prefix, k), out)
+				return nil
+			}
+		}
+		*out = append(*out, fmt.Sprintf("%s/%x=%x", prefix, k, v))
+		return nil
+	})
+}
+
+func dumpNS(db walletdb.DB, ns []byte) string {
+	var out []string
+	_ = walletdb.View(db, func(tx walletdb.ReadTx) error {
+		dumpBucket(tx.ReadBucket(ns), string(ns), &out)
+		return nil
+	})
+	return strings.Join(out, "\n")
+}
+
+// wopen: create a real wallet database, set the stored component versions, call wallet.Open, observe.
+func (r *migRunner) wopen(kv map[string]string) (string, string) {
+	tc, e1 := strconv.Atoi(kv["txcur"])
+	ac, e2 := strconv.Atoi(kv["addrcur"])
+	tl, al := realLatest()
+	gtl, _ := strconv.Atoi(kv["txlatest"])
+	gal, _ := strconv.Atoi(kv["addrlatest"])
+	if e1 != nil || e2 != nil || gtl != tl || gal != al {
+		return "bad-op", ""
+	}
+	old := waddrmgr.SetSecretKeyGen(func(p *[]byte, _ *waddrmgr.ScryptOptions) (*snacl.SecretKey, error) {
+		return snacl.NewSecretKey(p, 16, 8, 1)
+	})
+	defer waddrmgr.SetSecretKeyGen(old)
+	r.n++
+	db, err := walletdb.Create("bdb", filepath.Join(r.dir, fmt.Sprintf("w%d.db", r.n)), true, 10*time.Second, false)
+	if err != nil {
+		panic(err)
+	}
+	defer db.Close()
+	pub := []byte("pub")
+	if err := wallet.Create(db, pub, []byte("priv"), nil, &chaincfg.SimNetParams, time.Now()); err != nil {
+		panic(err)
+	}
+	err = walletdb.Update(db, func(tx walletdb.ReadWriteTx) error {
+		txNs := tx.ReadWriteBucket(wtxmgrNS)
+		addrNs := tx.ReadWriteBucket(waddrmgrNS)
+		store, err := wtxmgr.Open(txNs, &chaincfg.SimNetParams)
+		if err != nil {
+			return err
+		}
+		m := wire.NewMsgTx(2)
+		m.AddTxIn(wire.NewTxIn(wire.NewOutPoint(&chainhash.Hash{1}, 0), nil, nil))
+		m.AddTxOut(wire.NewTxOut(100000, []byte{0x51}))
+		rec, err := wtxmgr.NewTxRecordFromMsgTx(m, time.Now())
+		if err != nil {
+			return err
+		}
+		if err := store.InsertTx(txNs, rec, nil); err != nil {
+			return err
+		}
+		if err := wtxmgr.NewMigrationManager(txNs).SetVersion(nil, uint32(tc)); err != nil {
+			return err
+		}
+		return waddrmgr.NewMigrationManager(addrNs).SetVersion(nil, uint32(ac))
+	})
+	if err != nil {
+		panic(err)
+	}
+	beforeTx, beforeAddr := dumpNS(db, wtxmgrNS), dumpNS(db, waddrmgrNS)
+	w, openErr := wallet.Open(db, pub, nil, &chaincfg.SimNetParams, 10)
+	_ = w
+	afterTx, afterAddr := dumpNS(db, wtxmgrNS), dumpNS(db, waddrmgrNS)
+	var tv, av uint32
+	_ = walletdb.View(db, func(tx walletdb.ReadTx) error {
+		tv, _ = wtxmgr.NewMigrationManager(tx.ReadBucket(wtxmgrNS).(walletdb.ReadWriteBucket)).CurrentVersion(nil)
+		av, _ = waddrmgr.NewMigrationManager(tx.ReadBucket(waddrmgrNS).(walletdb.ReadWriteBucket)).CurrentVersion(nil)
+		return nil
+	})
+	es := "none"
+	if openErr != nil {
+		if errors.Is(openErr, migration.ErrReversion) {
+			es = "reversion"
+		} else {
+			es = "other:" + openErr.Error()
+		}
+	}
+	// data of the tx manager changed (beyond the version key)? compare unmined-tx presence
+	txdata := 0
+	if int(tv) != tc && beforeTx != afterTx {
+		txdata = 1
+	}
+	viol := ""
+	if openErr != nil && (beforeTx != afterTx || beforeAddr != afterAddr) {
+		viol = "C19 key=wallet.Open.failed-upgrade-modified-db: wallet.Open failed (" + es + ") but the database was modified"
+	}
+	if openErr == nil && (int(tv) != tl || int(av) != al) {
+		viol = "C19: wallet.Open succeeded but a component is not at its latest version"
+	}
+	return fmt.Sprintf("err=%s txver=%d addrver=%d txdata=%d", es, tv, av, txdata), viol
+}
+
 func (r *migRunner) Exec(op string) (string, string) {
 	name, kv := core.KV(op)
+	if name == "wopen" {
+		return r.wopen(kv)
+	}
 	if name != "up" {
 		return "bad-op", ""
 	}
